@@ -34,7 +34,7 @@
 import FcProps.KTieWaitUntil
 import FcLemmas.KTieWaitLoop
 import FcLemmas.KTieWaitStream
-import FcLemmas.KTieFamLoop
+import FcLemmas.KTieLoopCore
 
 set_option linter.unusedSimpArgs false
 set_option linter.unusedVariables false
